@@ -83,8 +83,33 @@ func mkCrit(c *core.Ctx, kind string, recs []R, dir string) crit {
 			long := strings.Repeat("x", []int{4096, 65535, 65536, 70000, 200000}[c.Rng.Intn(5)])
 			lines = append(lines[:at], append([]string{long}, lines[at:]...)...)
 		}
+		// the list is "one identifier per line": an identifier holds no blank, so blanks or tabs around it
+		// (an indented list, an empty second column, a trailing blank), empty lines and CRLF line ends do not
+		// change which identifier a line names (CLIIdListPredicate trims every line)
+		if c.Rng.Intn(2) == 0 {
+			for i := range lines {
+				switch c.Rng.Intn(8) {
+				case 0:
+					lines[i] = lines[i] + " "
+				case 1:
+					lines[i] = lines[i] + "\t"
+				case 2:
+					lines[i] = "  " + lines[i]
+				case 3:
+					lines[i] = "\t" + lines[i] + " \t "
+				}
+			}
+			if c.Rng.Intn(2) == 0 {
+				at := c.Rng.Intn(len(lines))
+				lines = append(lines[:at], append([]string{[]string{"", " ", "\t"}[c.Rng.Intn(3)]}, lines[at:]...)...)
+			}
+		}
+		eol := "\n"
+		if c.Rng.Intn(4) == 0 {
+			eol = "\r\n"
+		}
 		p := filepath.Join(dir, fmt.Sprintf("ids-%d.txt", c.Rng.Intn(1e9)))
-		os.WriteFile(p, []byte(strings.Join(lines, "\n")+"\n"), 0o644)
+		os.WriteFile(p, []byte(strings.Join(lines, eol)+eol), 0o644)
 		return crit{kind, []string{"--id-list", p}, func(r R) bool { return set[r.ID] }}
 	case "-p":
 		switch c.Rng.Intn(4) {
